@@ -37,26 +37,46 @@ func genC09(r *core.Rng, id int) *Case {
 		}
 	}
 	pool = append(pool, "Shared", "Shared")
-	gen.AdversarialNames = pool
-	defer func() { gen.AdversarialNames = nil }()
-	if id%4 == 3 {
-		// a fragment named like another fragment's implementation struct
-		gen.FragmentNameClash(r, s, d)
+	// a case that carries exactly one of the constructed clashes is otherwise decorated with
+	// valid, non-clashing options only: the whole program must be rejected (or wrongly
+	// accepted) because of THAT clash, not because of some other one converted earlier
+	fam := id % 10
+	targeted := fam == 1 || fam == 2 || fam == 4 || fam == 5 || fam == 9
+	if targeted {
+		gen.DecorateSafe(r, s, d, 0.2)
+	} else {
+		gen.AdversarialNames = pool
+		defer func() { gen.AdversarialNames = nil }()
+		if id%4 == 3 {
+			// a fragment named like another fragment's implementation struct
+			gen.FragmentNameClash(r, s, d)
+		}
+		gen.Decorate(r, s, d, 0.35, 0)
 	}
-	gen.Decorate(r, s, d, 0.35, 0)
 	defs := d.Defs()
-	if id%3 == 1 {
+	if (targeted && fam == 1) || (!targeted && id%3 == 1) {
 		if tw := gen.NestedTwinOp(r, s, "TwinType"); tw != nil {
 			defs = append(defs, tw)
 		}
 	}
-	if id%3 == 2 {
+	if (targeted && fam == 2) || (!targeted && id%3 == 2) {
 		if tw := gen.InlineTwinOp(r, s, "TwinIface"); tw != nil {
 			defs = append(defs, tw)
 		}
 	}
-	if id%5 == 4 {
-		defs = append(defs, gen.FragImplClashDefs(r, s, "K")...)
+	if fam == 4 || fam == 9 {
+		cl := gen.FragImplClashDefs(r, s, "K")
+		if fam == 9 && len(cl) == 4 {
+			// the other conversion order: the interface fragment (and its implementation
+			// structs) first, the fragment named like one of them second
+			cl[2].Text, cl[3].Text = strings.Replace(cl[3].Text, cl[3].Name, cl[2].Name, 1), strings.Replace(cl[2].Text, cl[2].Name, cl[3].Name, 1)
+		}
+		defs = append(defs, cl...)
+	}
+	if fam == 5 {
+		if e := gen.EnclosingTypenameOp(s, "E"); e != nil {
+			defs = append(defs, e)
+		}
 	}
 	return &Case{ID: fmt.Sprintf("n%d", id), Schema: s, SchemaFiles: map[string]string{"schema.graphql": s.SDL()}, Defs: defs,
 		Layout: gen.SingleFile(len(defs)), Cfg: gen.RandomCfg(r, s)}
